@@ -1099,11 +1099,47 @@ type vfdStoreTap struct {
 	seq     int
 	writes  []vfdWrite
 	onWrite func(nd *vfdNode, w *vfdWrite)
+	pmu     sync.Mutex
+	park    *vfdPark
+}
+
+// vfdPark: the next GetCurrent issued by goroutine Gid returns (with what it read) only when Release is closed or
+// Max has passed; Parked is closed when it got there. Used to hold one operation between its read of the current
+// record and whatever it does next, so that another one can be served in between if nothing else prevents it.
+type vfdPark struct {
+	Gid     uint64
+	Parked  chan struct{}
+	Release chan struct{}
+	Max     time.Duration
+}
+
+func (s *vfdStoreTap) setPark(p *vfdPark) {
+	s.pmu.Lock()
+	s.park = p
+	s.pmu.Unlock()
 }
 
 var _ Store = (*vfdStoreTap)(nil)
 
-func (s *vfdStoreTap) GetCurrent(id string) (*DBState, error)  { return s.inner.GetCurrent(id) }
+func (s *vfdStoreTap) GetCurrent(id string) (*DBState, error) {
+	st, err := s.inner.GetCurrent(id)
+	s.pmu.Lock()
+	p := s.park
+	if p != nil && p.Gid == vfdGid() {
+		s.park = nil
+	} else {
+		p = nil
+	}
+	s.pmu.Unlock()
+	if p != nil {
+		close(p.Parked)
+		select {
+		case <-p.Release:
+		case <-time.After(p.Max):
+		}
+	}
+	return st, err
+}
 func (s *vfdStoreTap) GetFinished(id string) (*DBState, error) { return s.inner.GetFinished(id) }
 func (s *vfdStoreTap) Close() error                            { return s.inner.Close() }
 func (s *vfdStoreTap) MigrateFromGroupfile(id string, g *key.Group, sh *key.Share) error {
